@@ -269,6 +269,11 @@ class Float(Domain):
 
     # Transform is -log(1 - x)
     class _ReverseLogUniform(LogUniform):
+        def __str__(self):
+            # Needed in ``to_dict``, ``from_dict``: the sampler class is looked up
+            # by this name
+            return "ReverseLogUniform"
+
         def sample(
             self,
             domain: "Float",
